@@ -14,7 +14,7 @@ Theorem C11_closure_panic :
       (forall x, x <> t -> w_keyf w' x = w_keyf w x).
 Proof.
   intros t m am s Ha ND fuel lent body w Q Hf Can Hp.
-  destruct (scoped_call_quiet t m am s Ha ND fuel lent body w Q Hf Can) as [w' [R [E [K1 K2]]]].
+  destruct (scoped_call_quiet t m am s Ha ND fuel lent body w Q Hf Can) as [w' [R [E [K1 [K2 _]]]]].
   rewrite Hp in R. exists w'. split; [exact R|]. split; [apply (ep_raw _ _ _ _ E)|].
   split; [eapply effp_quiet; eauto|]. now split.
 Qed.
